@@ -99,7 +99,12 @@ class Run:
         try:
             if not os.path.exists(os.path.join(COQ, "Makefile")):
                 subprocess.run(["sh", os.path.join(VERIF, "setup.sh")], capture_output=True, text=True, timeout=3600)
-            p = subprocess.run(["make", "-j16"], cwd=COQ, capture_output=True, text=True, timeout=3000)
+            # only this property's dependency cone (and the model runner's): an unrelated part of the
+            # development being rebuilt or broken must not disturb this check
+            targets = ["theories/CodecA.vo"]
+            if os.path.exists(os.path.join(PROPS, self.prop + ".v")):
+                targets.append("theories/props/%s.vo" % self.prop)
+            p = subprocess.run(["make", "-j16"] + targets, cwd=COQ, capture_output=True, text=True, timeout=3000)
             if p.returncode != 0:
                 self.proof_failures.append("make failed: " + (p.stdout + p.stderr)[-1500:])
             if not os.path.exists(os.path.join(VERIF, "extract", "modelrun")) or \
